@@ -198,6 +198,25 @@ def rule_instrlint(ctx, prop: str) -> RuleResult:
                     for nm in locals_seen:
                         if nm not in capture:
                             capture.append(nm)
+            # (6) a size parameter used as a shift count (`1 << {N}` builds the lane mask) must be bounded
+            #     by the assertions: `1` is an int, a shift by 32 or more is undefined (x86 wraps the
+            #     count: N = 32 gives the mask 0 where the body selects every lane)
+            for mm in re.finditer(r"1\s*<<\s*\{([A-Za-z_]\w*)\}", ins.c):
+                sz = mm.group(1)
+                if sz in argn and argn[sz].kind == "size":
+                    bounded = False
+                    for st in ins.node.body:
+                        if isinstance(st, ast.Assert) and isinstance(st.test, ast.Compare) and len(st.test.ops) == 1:
+                            l, r, op = st.test.left, st.test.comparators[0], st.test.ops[0]
+                            if isinstance(l, ast.Name) and l.id == sz and isinstance(r, ast.Constant) and isinstance(op, (ast.Lt, ast.LtE)) and r.value <= 31:
+                                bounded = True
+                            if isinstance(r, ast.Name) and r.id == sz and isinstance(l, ast.Constant) and isinstance(op, (ast.Gt, ast.GtE)) and l.value <= 31:
+                                bounded = True
+                    res.ob(bounded)
+                    if not bounded:
+                        res.add(Finding("INSTRLINT", rel, ins.lineno, ins.name, f"shift-unbounded:{sz}",
+                                        f"the template computes `1 << {{{sz}}}` but no assertion bounds {sz}: for {sz} >= 32 the shift is undefined in C (x86: {sz} = 32 gives mask 0, "
+                                        f"no lane is processed) while the Exo body processes every lane i < {sz}"))
             if unbraced:
                 res.ob(False)
                 res.add(Finding("INSTRLINT", rel, ins.lineno, ins.name, "decl-unbraced:" + ",".join(sorted(set(unbraced))),
